@@ -318,4 +318,6 @@ def check(ck: Check) -> None:
     ck.run("R15.3", "persist before expose, at every call site", lambda: r15_3(ck))
     ck.run("R15.4", "atomic replace of wallet.json", lambda: r15_4(ck))
     ck.run("R15.5", "partition preserved; balance over all keys", lambda: r15_5(ck))
+    from .c03 import r03_3, r03_4
+    ck.run("R03.4", "per-key balances = unspent outputs paying the key (updater agreement)", lambda: (r03_4(ck), r03_3(ck)))
     ck.assume("os.replace is atomic on the target file system; crash injection is not performed (the rule is the static form of 'every instant')")
